@@ -149,6 +149,16 @@ def verdict(prop, cfg, tier, seed, pr, results, runner, drv, t0, vp):
     samples = []
     for r in results:
         d = r["dir"]
+        if r.get("impl_rc", 0) == 4 and r.get("model_rc", 0) == 0:
+            # the harness's watchdog stopped a call that did not return: its VIOL * line names the history
+            try:
+                for l in open(os.path.join(d, "viol")):
+                    if l.startswith("VIOL " + prop + " ") or l.startswith("VIOL * "):
+                        viols.append((d, l.strip().replace("VIOL * ", "VIOL " + prop + " ", 1)))
+            except OSError:
+                pass
+            n_hist += 1
+            continue
         if r.get("model_rc", 0) != 0 or r.get("impl_rc", 0) != 0:
             divs.append(dict(hid="?", step=0, expected="model rc=%s %s" % (r.get("model_rc"), r.get("model_err", "")),
                              actual="impl rc=%s %s" % (r.get("impl_rc"), r.get("impl_out", "")[-300:]), dir=d))
@@ -177,6 +187,8 @@ def verdict(prop, cfg, tier, seed, pr, results, runner, drv, t0, vp):
         for l in open(os.path.join(d, "viol")):
             if l.startswith("VIOL " + prop + " "):
                 viols.append((d, l.strip()))
+            elif l.startswith("VIOL * "):          # non-termination: a violation of whatever is being checked
+                viols.append((d, l.strip().replace("VIOL * ", "VIOL " + prop + " ", 1)))
         if len(samples) < 3:
             ops = open(os.path.join(d, "ops")).read().split("\n")
             if len(ops) < 2000 or len(samples) == 0:
@@ -214,8 +226,11 @@ def verdict(prop, cfg, tier, seed, pr, results, runner, drv, t0, vp):
             continue
         reported.add(hid)
         hist = history_from_ops(os.path.join(d, "ops"), hid) or []
-        small = vp.ddmin(hist, runner, prop) if hist else hist
-        again = vp.viols_of(small, runner, prop, prop + "-confirm") if small else [v]
+        if "non-termination" in v:
+            small, again = hist, [v]        # every re-run of a hanging history costs a watchdog period: not minimised
+        else:
+            small = vp.ddmin(hist, runner, prop) if hist else hist
+            again = vp.viols_of(small, runner, prop, prop + "-confirm") if small else [v]
         path = os.path.join(replay_dir, f"{prop}-{hid}.json")
         json.dump(dict(property=prop, kind="impl-violation", target=cfg["target"], ops=small,
                        oracle=(again or [v])[0], seed=seed), open(path, "w"), indent=1)
@@ -236,7 +251,7 @@ def verdict(prop, cfg, tier, seed, pr, results, runner, drv, t0, vp):
         found = None
         for r in xs:
             for l in open(os.path.join(r["dir"], "viol")):
-                if l.startswith("VIOL " + prop + " ") and not vp.match_known(prop, l, known):
+                if (l.startswith("VIOL " + prop + " ") or l.startswith("VIOL * ")) and not vp.match_known(prop, l, known):
                     found = (r["dir"], l.strip())
                     break
             if found:
